@@ -442,7 +442,7 @@ def grid(name, tier, rng):
             out.append({"shape": s})
     elif name == "leaky_relu":
         for s in act_shapes:
-            for sl in (0.01, 0.2, -0.1):
+            for sl in (0.01, 0.2, -0.1, 1.5, 1.0, 0.0):          # slopes above 1 and the degenerate 1 / 0 are legal (PyTorch: x if x > 0 else slope * x)
                 out.append({"shape": s, "slope": sl})
     elif name in ("softmax", "log_softmax"):
         for s in [[4], [3, 4], [2, 3, 2], [2, 2, 3, 2]] + ([[1], [1, 3], [3, 1]] if th else []):
